@@ -558,6 +558,15 @@ fn ensure_ia5(s: &str) -> Result<(), Error> {
 	}
 }
 
+/// Returns an error for a date-time that can't be encoded in a certificate or CRL: both time
+/// forms are expressed in UTC and can only hold the years 0 to 9999 (the writers would panic).
+fn ensure_encodable_time(dt: OffsetDateTime) -> Result<(), Error> {
+	match dt.checked_to_offset(UtcOffset::UTC) {
+		Some(utc) if (0..=9999).contains(&utc.year()) => Ok(()),
+		_ => Err(Error::Time),
+	}
+}
+
 fn dt_strip_nanos(dt: OffsetDateTime) -> OffsetDateTime {
 	// Set nanoseconds to zero
 	// This is needed because the GeneralizedTime serializer would otherwise
